@@ -48,6 +48,13 @@ Decided (design clause in brackets):
  R1         InputIterator: operator++ refills (update_buffer) when the item iterator reached the buffer's end, after
             advancing; the end-of-input branch of update_buffer resets every member operator== compares
 
+Shape independence: dispatch functions are decided by evaluating their branch structure per item_type enumerator (switch,
+if/else-if chain, early returns, named locals and merged tests are equivalent; library helpers that receive the handler
+are inlined); conditions are normalised (negation, De Morgan, named bool locals, boolean helper functions); events inside
+extracted private member helpers count at the helper call (c20_util.carriers); anchors are found by role (the function
+that builds the DiffObject, the loop that steps `data = item->next()`), not by the helper's name; loop forms (for / while /
+do-while / for(;;) with explicit exit) are not distinguished.
+
 All eight clauses of DESIGN.md section 5 "C20" are implemented (clause 4, sibling agreement, follows from comparing every
 overload with the same oracle).  Instances are keyed by what the oracle REQUIRES (callback x case, callback x constness),
 so a dropped call / case / overload is a violated instance, not a vanished one.
